@@ -343,8 +343,8 @@ _ADD = {
                 assumptions=["unit handshake-overlap: one handshake is held (in the authenticator) at a time; the others run to completion meanwhile"]),
     "C12": dict(level_note=" Client role also covers application-chosen packet identifiers (reused only after completion) and requests that cannot be encoded."),
     "C13": dict(level_note=" The buffers handed back by Acked are kept and compared again after later operations."),
-    "C16": dict(level_note=_T + " A teardown that has not finished while a library goroutine stays in motion in one function for 3 s of consumed processor time is reported as a busy loop (census.Spinning)."),
-    "C17": dict(level_note=_T + " In half of the broker-role cases a subscriber with a persistent session reconnects 2-8 times under traffic (CONNACK first, stream intact)."),
+    "C16": dict(level_note=_T + " Unit inproc-blocked: goroutines blocked inside Server.Publish on a subscriber that stopped reading are released by the subscriber's end / Server.Close. A teardown that has not finished while a library goroutine stays in motion in one function for 3 s of consumed processor time is reported as a busy loop (census.Spinning)."),
+    "C17": dict(level_note=_T + " In half of the broker-role cases a subscriber with a persistent session reconnects under traffic (CONNACK first, stream intact). Client role: also a burst of numbered messages to a slow callback (order), and a connection lost with output pending followed by a reconnect of the same Client object (the new stream starts with CONNECT)."),
     "C18": dict(level_note=" A third of the workloads contain a subscriber that stops reading while a publisher sends it more than the buffers take. Unit reconnect-overlap runs the history of the known finding sig=reconnect-overlap (KNOWN_FINDINGS.txt: a client identifier is back before its old connection's teardown finished; both connections share the session object) and counts its race reports as that finding; in unit race a client reconnects only after its old connection was torn down.",
                 assumptions=["unit race: a client identifier reconnects only after the teardown of its previous connection has finished; the overlap is the recorded known finding"]),
     "C19": dict(level_note=" Silence may begin inside a packet; one scenario in half of the runs keeps sending without reading for 2.2 K (the broker stops taking its bytes) and must survive."),
